@@ -14,7 +14,7 @@ from tools.vlib import Outcome, sx
 from tools.props import c15_gen as G
 
 MANIFEST = {
-    "level_text": "Coq theorems (Properties/C15.v, no axioms) about byte-level Gallina transcriptions (strings = UTF-8 byte lists, every Rust slice = a slice that returns Panic exactly when Rust panics) of every function of the analysis and generation code that slices a str by computed offsets, unwraps or recurses on substrings: for ALL well-formed UTF-8 input parse_type_structure (with all extract_* helpers and parse_two_type_params), extract_type_names, add_types_prefix, parse_rename_all, parse_rename (repaired restart offset), parse_validator_attributes including parse_message_from_content (repaired: char_indices), apply_naming_convention under all eight rules (repaired camelCase call-site guard) and event_name_to_function never panic and terminate with the stated fuel; the former counterexamples are positive theorems on the same witnesses. compute_variant_name (variant-rule repair, CamelCase arm guarded at the call site) returns for every rule and name although the crate's apply_to_variant(CamelCase) slices variant[..1]. No refutation and no class premise is left. The models are tied to the code on every run by executing both on the same adversarial strings (exhaustive short strings over an alphabet with 1-4 byte characters, multi-byte characters at every offset of attribute payloads, unbalanced type strings) and comparing value-or-PANIC.",
+    "level_text": "Coq theorems (Properties/C15.v, no axioms) about byte-level Gallina transcriptions (strings = UTF-8 byte lists, every Rust slice = a slice that returns Panic exactly when Rust panics) of every function of the analysis and generation code that slices a str by computed offsets, unwraps or recurses on substrings: for ALL well-formed UTF-8 input parse_type_structure (with all extract_* helpers, parse_two_type_params and the shared find_top_level_comma / split_top_level loop), extract_type_names, add_types_prefix (including its recursion under []), parse_rename_all, parse_rename (repaired restart offset), parse_validator_attributes including parse_message_from_content (repaired: char_indices), apply_naming_convention under all eight rules (repaired camelCase call-site guard) and event_name_to_function never panic and terminate with the stated fuel; the former counterexamples are positive theorems on the same witnesses. compute_variant_name (variant-rule repair, CamelCase arm guarded at the call site) returns for every rule and name although the crate's apply_to_variant(CamelCase) slices variant[..1]. No refutation and no class premise is left. The models are tied to the code on every run by executing both on the same adversarial strings (exhaustive short strings over an alphabet with 1-4 byte characters, multi-byte characters at every offset of attribute payloads, unbalanced type strings) and comparing value-or-PANIC.",
     "level_note": "Partial. Proved: panic-freedom and termination of the string-index arithmetic (the mechanism the property names). Not modelled, only searched by the oracle streams (grammar-generated exotic items, /repo and registry sources with truncations/mutations, non-Rust text, each through the real CLI with exit status in {0,1} and through generate_from_config under catch_unwind; isolation of unparsable files compared on generated output modulo timestamp and declaration order): syn, Tera, walkdir, the AST walkers (command/struct/event/channel parsers; their indexing sites are length-guarded, listed in notes/C15.md), the generators, stack exhaustion on pathologically deep nesting. C15_total covers the fuelled string recursions, not the worklists (C07) or graph routines (C20). C15_isolated is checked at run time only, not stated in Coq. char::is_uppercase in the snake/kebab arms of apply_to_variant is exact on ASCII names only (value compared for ASCII names, outcome for all). Numeric parse of min/max is compared through a python transcription of Rust's u64/f64 grammar.",
     "technique": "Rocq/Coq proof over hand-written model + correspondence check (extracted OCaml vs Rust harness) + CLI fuzzing oracle",
     "design_ref": "DESIGN.md section 5 C15, section 2.2",
@@ -190,6 +190,28 @@ def eval_prefix(strings):
         ip = isinstance(impl, dict)
         corr = (ip and "PANIC" in impl and tag == "panic") or (not ip and tag == "ok" and val == impl)
         outs.append(Outcome(case, corr, not ip, None, {"impl": impl, "model": val if tag == "ok" else tag}, nontrivial=nontrivial(c["s"])))
+    return outs
+
+
+def eval_tskey(strings):
+    """oracle only (the ts_key filter inspects characters and never slices, so it has no byte-level model):
+    the filter returns; key form is the name itself or a double-quoted literal, member form .name or [literal]"""
+    cases = [{"id": i, "s": s} for i, s in enumerate(strings)]
+    obs = vlib.run_harness("c15-tskey", cases, per_case_timeout=20)
+    outs = []
+    for c, o in zip(cases, obs):
+        if o.get("skipped"):
+            continue
+        impl = o.get("out", o)
+        if isinstance(impl, dict) and "ERR" in impl:
+            if "ts_key" in impl["ERR"] and "not" in impl["ERR"]:
+                return []          # tree without the filter (before repair C01-bare-key-quote)
+            outs.append(Outcome({"fn": "tskey", "s": c["s"]}, True, True, None, {"impl": impl}, nontrivial=False))
+            continue
+        ok = isinstance(impl, str)
+        if ok:
+            ok = impl == c["s"] + "|." + c["s"] or (impl.startswith('"') and impl.endswith('"]'))
+        outs.append(Outcome({"fn": "tskey", "s": c["s"]}, True, ok, None, {"impl": impl}, nontrivial=nontrivial(c["s"])))
     return outs
 
 
@@ -418,6 +440,8 @@ def replay_items(rep, payload):
             outs = eval_type([c["s"]])
         elif c.get("fn") == "prefix":
             outs = eval_prefix([c["s"]])
+        elif c.get("fn") == "tskey":
+            outs = eval_tskey([c["s"]])
         elif c.get("fn") == "naming":
             outs = eval_naming([(c["rule"], c["name"])])
         elif c.get("kind") == "isolation":
@@ -461,6 +485,7 @@ def run(rep):
     dist["type"] = add_chunked(rep, "type", eval_type, list(dict.fromkeys(G.type_strings(rep.tier, rng))))
     dist["prefix"] = add_chunked(rep, "prefix", eval_prefix, list(dict.fromkeys(G.prefix_strings(rep.tier, rng))))
     dist["naming"] = add_chunked(rep, "naming", eval_naming, list(dict.fromkeys(G.naming_cases(rep.tier, rng))))
+    dist["tskey"] = add_chunked(rep, "tskey", eval_tskey, list(dict.fromkeys(G.key_strings(rep.tier, rng))))
     ics = isolation_cases(rep, rng)
     pcs = project_cases(rep, rng)
     # the bases of the isolation cases are judged as ordinary project cases
